@@ -1006,6 +1006,23 @@ func (x *Exec) uninterp(st *State, name string, args []Val, resT types.Type) Val
 // symbol is used when verified code calls a function whose contract says
 // `pure` (and has no body-level contract), so code and spec agree.
 func (x *Exec) pureApp(st *State, f *ssa.Function, args []Val) Val {
+	// an uncontracted repo function used in a spec is given its meaning by
+	// its own body (executed symbolically, obligations suppressed)
+	if x.L.isRepoFunc(f) && len(f.Blocks) > 0 && f.Signature.Results().Len() == 1 && x.specDepth < 3 {
+		ctr := x.contractFor(f)
+		if ctr == nil || ctr.Inline {
+			if v, ok := x.execAsSpec(st, f, args); ok {
+				return v
+			}
+		}
+	}
+	if !x.L.isRepoFunc(f) && isPurePackage(f) && deterministicLib(f) {
+		name := f.String()
+		if o := f.Origin(); o != nil {
+			name = o.String()
+		}
+		return x.uninterp(st, fmt.Sprintf("lf_%s_%d", sanitize(name), 0), args, f.Signature.Results().At(0).Type())
+	}
 	if f.Signature.Results().Len() != 1 {
 		x.note("spec-error: pure application of %s with %d results", f.String(), f.Signature.Results().Len())
 		return Val{T: x.d.Fresh("specerr", "Bool"), Typ: types.Typ[types.Bool]}
@@ -1134,4 +1151,74 @@ func (x *Exec) mapLen(st *State, m Term, mt *types.Map) Term {
 	t := Term{fmt.Sprintf("(%s (select %s %s))", fn, has.S, m.S), "Int"}
 	st.assume(Ge(t, IntLit(0)))
 	return t
+}
+
+// execAsSpec runs f symbolically from st (on a scratch copy) and returns its
+// result as an ite-chain over its paths. Obligations inside are not emitted.
+func (x *Exec) execAsSpec(st *State, f *ssa.Function, args []Val) (Val, bool) {
+	if f.TypeParams().Len() > 0 && len(f.TypeArgs()) == 0 {
+		return Val{}, false
+	}
+	savedClasses := x.classes
+	savedTrunc, savedPaths := x.truncated, x.paths
+	savedStack := x.inlineStack
+	x.classes = map[string]bool{}
+	x.specDepth++
+	base := len(st.pc)
+	scratch := st.clone()
+	type ret struct {
+		cond Term
+		val  Val
+	}
+	var rets []ret
+	x.inlineStack = append(x.inlineStack, f)
+	x.L.indexDebugRefs(f)
+	var facts [][2]Term
+	x.runFunction(f, scratch, args, nil, 1, func(s2 *State, rs []Val) {
+		if len(rs) != 1 {
+			return
+		}
+		isCond := map[int]bool{}
+		for _, i := range s2.condIdx {
+			isCond[i] = true
+		}
+		var conds []Term
+		for i := base; i < len(s2.pc); i++ {
+			if isCond[i] {
+				conds = append(conds, s2.pc[i])
+			}
+		}
+		c := And(conds...)
+		for i := base; i < len(s2.pc); i++ {
+			if !isCond[i] {
+				facts = append(facts, [2]Term{c, s2.pc[i]})
+			}
+		}
+		rets = append(rets, ret{c, rs[0]})
+	})
+	x.inlineStack = savedStack
+	x.specDepth--
+	x.classes = savedClasses
+	ok := !x.truncated && len(rets) > 0 && len(rets) <= 64
+	x.truncated, x.paths = savedTrunc, savedPaths
+	if !ok {
+		return Val{}, false
+	}
+	// facts assumed along a path (definitions of fresh symbols, library
+	// contracts, type ranges) hold under that path's branch conditions
+	seen := map[string]bool{}
+	for _, f := range facts {
+		t := Implies(f[0], f[1])
+		if !seen[t.S] {
+			seen[t.S] = true
+			st.assume(t)
+		}
+	}
+	res := rets[len(rets)-1].val
+	t := x.termOf(st, &res)
+	for i := len(rets) - 2; i >= 0; i-- {
+		v := rets[i].val
+		t = Ite(rets[i].cond, x.termOf(st, &v), t)
+	}
+	return Val{T: t, Typ: f.Signature.Results().At(0).Type()}, true
 }
